@@ -92,10 +92,9 @@ LEVEL_NOTE = ("Trusted: kernel, extraction, harness, Go's csv/json/charset reade
               "model and code is sampled (quick: 100 well-formed + 34 damaged statements per importer). The parser half of "
               "the round trip is checked on the binary (knut print), not proved (parser model: C07/C09).  Group B: 100 well-formed + "
               "34 damaged statements per importer in the quick tier; interactivebrokers has no statement-level theorem (Forex trades, "
-              "assertions and ignored records are covered by the byte-exact correspondence only).  Open findings on which the check "
-              "fails on the unchanged tree: wise statements tagged note=incoming-conversion (findings/C13-wise-incoming-conversion.md, "
-              "patch included; drv_c13b.ml wise_repaired) and interactivebrokers statements tagged note=fractional "
-              "(findings/C13-interactivebrokers-rounding.md).")
+              "assertions and ignored records are covered by the byte-exact correspondence only).  Findings: the wise double credit of a converted incoming payment was "
+              "repaired in /repo (0ec20cd; the model follows); interactivebrokers' rounding to two places (golden file pins it) and "
+              "cumulus' dropped payment rows are known findings, printed as KNOWN-FINDING lines.")
 
 
 def plan(tier, seed):
